@@ -8,9 +8,19 @@
      ma_bit ma len i   := bit (i mod 8) of octet ma[len - 1 - i / 8]
      cut n bits        := the prefix of bits before the first element >= n
      spec_hopping freq ma len := [cell_alloc[i] | i <- cut |cell_alloc| [i <- 0 .. 8*len-1 | ma_bit ma len i]]
-   Results: Ok rc state | OOB (access outside freq[1024], ma[], hopping[] or the local uint16_t f[64]). *)
+   Results: Ok rc state | OOB (access outside freq[1024], ma[], hopping[] or the local uint16_t f[64]).
+   The callers (Model/MobAllocSi4.v), second half of this file:
+     si4_tail d si1 s c  := the tail of gsm48_decode_sysinfo4 on the payload d (the octets after the 13-octet SI4 header, any length),
+                            si1 = the flag s->si1, s = (freq, hopping, hopp_len) before, c = the CBCH channel description members before;
+                            result SRet rc s' c' off left (return code, state after, where data / payload_len stand when the rest
+                            octets are reached) | SOOB (some data[k], or some ma[k] of the decoder, lies behind the end of the message)
+     render_ma lv ..     := the mobile-allocation branch of gsm48_rr_render_ma on the array mob_alloc_lv[9]
+     octets l            := every element is in 0..255
+     cd_ie pre           := pre = [] or pre = [100; a; b2; b3]   (the optional CBCH Channel Description IE, tag 0x64)
+     cd_fields pre c     := c, or the members decoded from a, b2, b3 by 44.018 10.5.2.5
+     114 = 0x72 is the tag of the CBCH Mobile Allocation IE, -5 = -EIO, 101 = 0x65 = GSM48_RR_CAUSE_NO_CELL_ALLOC_A. *)
 From Coq Require Import ZArith List.
-From OBB Require Import Base.Range Gen.MobAllocConst Model.MobAlloc Proofs.MobAllocP.
+From OBB Require Import Base.Range Gen.MobAllocConst Gen.MobAllocSi4Const Model.MobAlloc Model.MobAllocSi4 Proofs.MobAllocP Proofs.MobAllocSi4P.
 Import ListNotations.
 Open Scope Z_scope.
 
@@ -92,3 +102,113 @@ Theorem c20_empty : forall freq ma hop hl si4,
   decode freq ma 0 hop hl si4 = Ok 0 (mkst (if si4 =? 0 then freq else map (fun m => Z.land m 253) freq) hop 0).
 Proof. exact empty_thm. Qed.
 Print Assumptions c20_empty.
+
+(* ==================================================================== the callers of the decoder *)
+
+(* the values the source currently has (Gen: errno.h EIO, gsm_04_08.h IE tags / sizeof of the SI4 header and of struct gsm48_chan_desc /
+   RR cause, gsm48_rr.h bound of mob_alloc_lv, all as compiled) *)
+Theorem c20_si4_constants :
+  c_EIO = 5 /\ c_IE_CBCH_CHAN_DESC = 100 /\ c_IE_CBCH_MOB_AL = 114 /\ c_SI4_HDR_SIZE = 13 /\ c_CHAN_DESC_SIZE = 3 /\
+  c_MOB_ALLOC_LV_SIZE = 9 /\ c_CAUSE_NO_CELL_ALLOC_A = 101.
+Proof. exact si4_constants. Qed.
+Print Assumptions c20_si4_constants.
+
+(* for EVERY SI4 payload (any length, any octets), with or without SI1: no read behind the end of the message, neither by the SI4
+   code nor by the decoder it calls (the caller contract 'len <= octets present' of c20_in_bounds is discharged here: no such
+   hypothesis), no access outside freq[1024] / hopping[64]; the position reached stays inside the message; the return code is 0 or
+   -EIO, and with -EIO the table, hopping[] and hopp_len are exactly as before *)
+Theorem c20_si4_in_bounds : forall d si1 s c,
+  octets d -> Zlength (s_freq s) = 1024 -> Zlength (s_hop s) = 64 ->
+  exists rc s' c' off left, si4_tail d si1 s c = SRet rc s' c' off left /\ 0 <= off /\ 0 <= left /\ off + left = Zlength d /\
+    (rc = 0 \/ (rc = -5 /\ s' = s)).
+Proof. exact si4_safe. Qed.
+Print Assumptions c20_si4_in_bounds.
+
+(* a message that ends anywhere inside the CBCH Mobile Allocation IE (length octet l present, fewer than l value octets): -EIO,
+   table / hopping[] / hopp_len untouched, whatever SI1 *)
+Theorem c20_si4_cut_in_ie : forall pre l v' si1 s c,
+  cd_ie pre -> octets pre -> 0 <= l < 256 -> Zlength v' < l ->
+  si4_tail (pre ++ 114 :: l :: v') si1 s c = SRet (-5) s (cd_fields pre c) (Zlength pre) (2 + Zlength v').
+Proof. exact si4_cut. Qed.
+Print Assumptions c20_si4_cut_in_ie.
+
+(* ... or directly behind its tag (the length octet is not read) *)
+Theorem c20_si4_cut_after_tag : forall pre si1 s c,
+  cd_ie pre -> octets pre ->
+  si4_tail (pre ++ [114]) si1 s c = SRet (-5) s (cd_fields pre c) (Zlength pre) 1.
+Proof. exact si4_cut_tag. Qed.
+Print Assumptions c20_si4_cut_after_tag.
+
+(* ... or inside the CBCH Channel Description IE (1..3 of its 4 octets): -EIO, nothing stored at all *)
+Theorem c20_si4_cut_in_chan_desc : forall x si1 s c,
+  hd 0 x = 100 -> 1 <= Zlength x < 4 ->
+  si4_tail x si1 s c = SRet (-5) s c 0 (Zlength x).
+Proof. exact si4_cut_cd. Qed.
+Print Assumptions c20_si4_cut_in_chan_desc.
+
+(* a complete IE after SI1: return 0, the state stored is EXACTLY what the decoder yields on the l value octets v of the IE (with
+   si4 = 1), whatever follows (tail = rest octets); 2 + l octets consumed (+ 4 with the channel description) *)
+Theorem c20_si4_accept : forall pre l v tail si1 s c,
+  cd_ie pre -> octets pre -> 0 <= l < 256 -> Zlength v = l -> si1 <> 0 ->
+  Zlength (s_freq s) = 1024 -> Zlength (s_hop s) = 64 ->
+  exists rc s', decode (s_freq s) v l (s_hop s) (s_hlen s) 1 = Ok rc s' /\
+    si4_tail (pre ++ 114 :: l :: v ++ tail) si1 s c = SRet 0 s' (cd_fields pre c) (Zlength pre + 2 + l) (Zlength tail).
+Proof. exact si4_accept. Qed.
+Print Assumptions c20_si4_accept.
+
+(* hence, for 0..8 bitmap octets, what SI4 stores is the specified list (c20_spec through the caller) *)
+Theorem c20_si4_spec : forall pre l v tail si1 s c,
+  cd_ie pre -> octets pre -> 0 <= l <= 8 -> Zlength v = l -> si1 <> 0 ->
+  Zlength (s_freq s) = 1024 -> Zlength (s_hop s) = 64 ->
+  exists freq', si4_tail (pre ++ 114 :: l :: v ++ tail) si1 s c =
+    SRet 0 (mkst freq' (spec_hopping (s_freq s) v l ++ skipn (length (spec_hopping (s_freq s) v l)) (s_hop s))
+                 (Zlength (spec_hopping (s_freq s) v l)))
+         (cd_fields pre c) (Zlength pre + 2 + l) (Zlength tail).
+Proof. exact si4_spec. Qed.
+Print Assumptions c20_si4_spec.
+
+(* a complete IE of 9..255 octets: the decoder refuses (-EINVAL), gsm48_decode_sysinfo4 ignores the refusal and returns 0;
+   table / hopping[] / hopp_len untouched, the IE is skipped *)
+Theorem c20_si4_long_ignored : forall pre l v tail si1 s c,
+  cd_ie pre -> octets pre -> 8 < l < 256 -> Zlength v = l ->
+  si4_tail (pre ++ 114 :: l :: v ++ tail) si1 s c = SRet 0 s (cd_fields pre c) (Zlength pre + 2 + l) (Zlength tail).
+Proof. exact si4_long. Qed.
+Print Assumptions c20_si4_long_ignored.
+
+(* before SI1 (s->si1 = 0) a complete IE is skipped: table / hopping[] / hopp_len untouched, 2 + l octets consumed *)
+Theorem c20_si4_before_si1 : forall pre l v tail s c,
+  cd_ie pre -> octets pre -> 0 <= l < 256 -> Zlength v = l ->
+  si4_tail (pre ++ 114 :: l :: v ++ tail) 0 s c = SRet 0 s (cd_fields pre c) (Zlength pre + 2 + l) (Zlength tail).
+Proof. exact si4_before_si1. Qed.
+Print Assumptions c20_si4_before_si1.
+
+(* no CBCH Mobile Allocation IE (the octet after the optional channel description is not 0x72): nothing consumed, nothing changed *)
+Theorem c20_si4_no_ma_ie : forall pre rest si1 s c,
+  cd_ie pre -> octets pre -> (pre = [] -> hd 0 rest <> 100) -> hd 0 rest <> 114 ->
+  si4_tail (pre ++ rest) si1 s c = SRet 0 s (cd_fields pre c) (Zlength pre) (Zlength rest).
+Proof. exact si4_no_ma. Qed.
+Print Assumptions c20_si4_no_ma_ie.
+
+(* the assignment path (gsm48_rr_render_ma): mob_alloc_lv has 9 octets, so for EVERY content (any length octet 0..255) neither the
+   caller nor the decoder leaves the array, the table or ma[64] *)
+Theorem c20_render_in_bounds : forall lv freq ma ma_len,
+  Zlength lv = 9 -> octets lv -> Zlength freq = 1024 -> Zlength ma = 64 ->
+  exists rc s, render_ma lv freq ma ma_len = Ok rc s.
+Proof. exact render_safe. Qed.
+Print Assumptions c20_render_in_bounds.
+
+(* ... for 1..8 bitmap octets ma[] / ma_len receive the specified list; an empty list is answered with cause 0x65 *)
+Theorem c20_render_spec : forall l v freq ma ma_len,
+  1 <= l <= 8 -> l <= Zlength v -> Zlength freq = 1024 -> Zlength ma = 64 ->
+  exists freq', render_ma (l :: v) freq ma ma_len =
+    Ok (if Zlength (spec_hopping freq v l) <? 1 then 101 else 0)
+       (mkst freq' (spec_hopping freq v l ++ skipn (length (spec_hopping freq v l)) ma) (Zlength (spec_hopping freq v l))).
+Proof. exact render_spec. Qed.
+Print Assumptions c20_render_spec.
+
+(* ... a length octet of 9..255 (kept out of mob_alloc_lv by the IE parsers of gsm48_rr.c, which are not modelled): the decoder
+   refuses and writes nothing, its return code is ignored, and the verdict is taken from the caller's previous ma_len *)
+Theorem c20_render_long_stale : forall l v freq ma ma_len, 8 < l < 256 ->
+  render_ma (l :: v) freq ma ma_len = Ok (if ma_len <? 1 then 101 else 0) (mkst freq ma ma_len).
+Proof. exact render_long. Qed.
+Print Assumptions c20_render_long_stale.
